@@ -321,4 +321,6 @@ func rulesC09(e *Engine, r *Report) {
 	// ---------------------------------------------------------------- R09.8
 	r.Rule("R09.8", "one lock table per source: the per-file locks that serialise the companion's read-modify-write live in the source's gatekeeper, so there must be exactly one gatekeeper per source - getGateKeeper builds and files it atomically (factory and store under the table's write lock after a second look-up) - shared with R15.7")
 	e.checkGateKeeperOnce(r, "R09.8")
+	// ---------------------------------------------------------------- R09.9
+	e.shareRule(r, "C08", "R08.4", "R09.9", "what the receiver acknowledges is what it recorded: the part count in the 206 answer is advanced only on the err == nil edge of GateKeeper.Receive, so a part whose range was NOT put on record (unreadable companion, disk full, partial missing) is never counted as received")
 }
